@@ -79,9 +79,9 @@ func (m *Monitors) betMonitors(c *Chain, o Op, res string, prev, cur *Snap) []st
 		switch o.Kind {
 		case "MADD", "MUPD", "MRES":
 			touched[marketUID(o.UID)] = true
-		case "DEP", "WDR":
+		case "DEP", "WDR", "SDEP", "SWDR":
 			touched[marketUID(o.Mkt)] = true
-		case "WAG":
+		case "WAG", "SWAG":
 			touched[marketUID(o.SelMkt)] = true
 		case "END":
 			for _, q := range prev.MQ {
@@ -681,10 +681,8 @@ func (m *Monitors) betMonitors(c *Chain, o Op, res string, prev, cur *Snap) []st
 				bad("C05", "resolved book %d is not queued for payment", uidNum(kq))
 			}
 		}
-	default:
-		if o.Kind != "BEGIN" && o.Kind != "GRANT" && o.Kind != "REVOKE" {
-			checkDeltas("C01", o.Kind)
-		}
+	case "MADD", "MUPD", "MRES", "PROP", "VOTE":
+		checkDeltas("C01", o.Kind)
 	}
 	return v
 }
